@@ -235,7 +235,7 @@ def View.vout (buf : Bytes) (v : View) (j : Nat) : Option TxOut :=
       | some (some a), some (some s) => some { value := ofLe a, spk := s }
       | _, _ => none
 
-/-- `PSBTView.locktime` / `tx_version` (global scope lookups for v2; default 0) -/
+/-- `PSBTView.locktime` / `tx_version` (global scope lookups for v2; defaults 0 / 2, the same as `PSBT.tx`) -/
 def View.getLocktime (buf : Bytes) (v : View) : Option Nat :=
   match v.locktime with
   | some l => some l
@@ -249,7 +249,7 @@ def View.getTxVersion (buf : Bytes) (v : View) : Option Nat :=
   | some l => some l
   | none => match View.getValue buf [0x02] (v.offset + 5) with
     | some (some x) => some (ofLe x)
-    | some none => some 0
+    | some none => some 2      -- the fallback of `PSBT.tx` (after the C01X `fix:` commit; it was 0)
     | none => none
 
 /-- `PSBTView.input(i, compress)` -/
